@@ -631,7 +631,19 @@ func (rule *RuleExpression) checkIfCondition(str *String, workflowKey string) {
 		}
 
 		p := NewExprParser()
-		expr, err := p.Parse(NewExprLexer(src))
+		l := NewExprLexer(src)
+		expr, err := p.Parse(l)
+		if err == nil && l.Offset() < len(src) {
+			// The condition itself contains }} so the lexer stopped before the end of the condition
+			off := l.Offset() - 2
+			bol := strings.LastIndexByte(src[:off], '\n') + 1
+			err = &ExprError{
+				Message: "unexpected \"}}\" in \"if\" condition. \"}}\" is only available for closing ${{ }} placeholder",
+				Offset:  off,
+				Line:    strings.Count(src[:off], "\n") + 1,
+				Column:  off - bol + 1,
+			}
+		}
 		if err != nil {
 			rule.exprError(err, line, col)
 			return
